@@ -10,6 +10,7 @@ import (
 	"fmt"
 	"io"
 	"os"
+	"runtime"
 	"sort"
 	"strings"
 	"time"
@@ -51,12 +52,49 @@ type artifact struct {
 // store it wraps.
 type logTarget struct {
 	*oci.Store
-	log *[]string
+}
+
+type hKey struct{}
+
+func hOf(ctx context.Context) *H {
+	h, _ := ctx.Value(hKey{}).(*H)
+	return h
+}
+
+// yield lets other goroutines run inside the window of a library call (concurrency family).
+func yield(ctx context.Context) {
+	if h := hOf(ctx); h != nil && h.conc {
+		runtime.Gosched()
+	}
 }
 
 func (t logTarget) Fetch(ctx context.Context, d ocispec.Descriptor) (io.ReadCloser, error) {
-	*t.log = append(*t.log, string(d.Digest))
-	return t.Store.Fetch(ctx, d)
+	if h := hOf(ctx); h != nil {
+		h.flog = append(h.flog, string(d.Digest))
+	}
+	yield(ctx)
+	rc, err := t.Store.Fetch(ctx, d)
+	yield(ctx)
+	return rc, err
+}
+
+func (t logTarget) Push(ctx context.Context, d ocispec.Descriptor, r io.Reader) error {
+	yield(ctx)
+	err := t.Store.Push(ctx, d, r)
+	yield(ctx)
+	return err
+}
+
+func (t logTarget) Exists(ctx context.Context, d ocispec.Descriptor) (bool, error) {
+	yield(ctx)
+	return t.Store.Exists(ctx, d)
+}
+
+func (t logTarget) Predecessors(ctx context.Context, d ocispec.Descriptor) ([]ocispec.Descriptor, error) {
+	yield(ctx)
+	ps, err := t.Store.Predecessors(ctx, d)
+	yield(ctx)
+	return ps, err
 }
 
 var _ oras.GraphTarget = logTarget{}
@@ -94,6 +132,19 @@ type H struct {
 	sharedAnn  map[string]string
 	sharedDesc map[string]ocispec.Descriptor // decorated descriptor (its Annotations map, Platform pointer) per triple
 	frameSeen  map[string]bool
+	// concurrency family: yields inside the calls, recording switched off after the sample
+	conc      bool
+	mute      bool
+	lastPush  struct {
+		cls    int
+		bd, md ocispec.Descriptor
+	}
+	lastFetch struct {
+		cls int
+		dg  digest.Digest
+		n   int
+		bd  ocispec.Descriptor
+	}
 }
 
 type envRec struct {
@@ -101,14 +152,33 @@ type envRec struct {
 	b  []byte
 }
 
-func runHistory(id int64, rng *Rng, tier, base string, total int) (out *histOut) {
-	h := &H{rng: rng, ctx: context.Background(), tier: tier,
+func newH(rng *Rng, tier string, share bool) *H {
+	h := &H{rng: rng, tier: tier,
 		dgs: map[string]int64{"": 0, string(digest.FromString("{}")): 1},
 		mts: map[string]int64{"": 0, mtImage: 1, mtArtifact: 2, mtIndex: 3, mtDMan: 4, mtDList: 5, registry.ArtifactTypeNotation: 6, mtOctet: 7},
 		strs: map[string]int64{keyCreated: 1}, tags: map[string]bool{}, lastList: map[string][]string{}}
-	h.share = id%2 == 0
+	h.ctx = context.WithValue(context.Background(), hKey{}, h)
+	h.share = share
 	h.sharedDesc = map[string]ocispec.Descriptor{}
 	h.frameSeen = map[string]bool{}
+	return h
+}
+
+func (h *H) rec(op, ob, human string) {
+	if h.mute {
+		return
+	}
+	h.ops = append(h.ops, op)
+	h.obs = append(h.obs, ob)
+	h.human = append(h.human, human)
+}
+
+func (h *H) caseTerm(id int64) string {
+	return CApp("mk_case", CN(id), CApp("mk_input", CList(h.ops)), CList(h.obs))
+}
+
+func runHistory(id int64, rng *Rng, tier, base string, total int) (out *histOut) {
+	h := newH(rng, tier, id%2 == 0)
 	dir, err := os.MkdirTemp(base, "vh-c19-*")
 	if err != nil {
 		panic(err)
@@ -120,10 +190,10 @@ func runHistory(id int64, rng *Rng, tier, base string, total int) (out *histOut)
 		panic(err)
 	}
 	h.store = st
-	h.repo = registry.NewRepository(logTarget{Store: st, log: &h.flog})
+	h.repo = registry.NewRepository(logTarget{Store: st})
 	family := h.generate(id, total)
 	h.reopenCheck()
-	term := CApp("mk_case", CN(id), CApp("mk_input", CList(h.ops)), CList(h.obs))
+	term := h.caseTerm(id)
 	tags := make([]string, 0, len(h.tags))
 	for t := range h.tags {
 		tags = append(tags, t)
@@ -335,6 +405,8 @@ func (h *H) pushSig(mt string, blob []byte, subj ocispec.Descriptor, an map[stri
 	an = copyAnn(given) // what the call was given, for the case term
 	preAnn, preSubj, preBlob := snap(given), snap(subj), append([]byte(nil), blob...)
 	h.guard("PushSignature", func() { bd, md, err = h.repo.PushSignature(h.ctx, mt, blob, subj, given) })
+	yield(h.ctx)
+	h.lastPush.cls, h.lastPush.bd, h.lastPush.md = pushClass(err), bd, md
 	h.frame("the annotations map handed to PushSignature", preAnn, snap(given))
 	h.frame("the subject descriptor handed to PushSignature", preSubj, snap(subj))
 	h.frame("the envelope bytes handed to PushSignature", string(preBlob), string(blob))
@@ -361,9 +433,7 @@ func (h *H) pushSig(mt string, blob []byte, subj ocispec.Descriptor, an map[stri
 	}
 	blobDg := digest.FromBytes(blob)
 	p := "(P " + h.mt(mt) + " " + h.dg(blobDg) + " " + h.content(blob) + " " + h.desc(subj) + " " + h.ann(an) + " " + now + " " + CBool(cvalid) + " " + mdg + " " + msz + ")"
-	h.ops = append(h.ops, "OpPush "+p)
-	h.obs = append(h.obs, res)
-	h.human = append(h.human, fmt.Sprintf("PushSignature(%q, %d bytes sha256:%s.., subject %s, %d annotations) -> class %d %v", mt, len(blob), hex.EncodeToString(sha256sum(blob))[:8], short(subj), len(an), cls, errStr(err)))
+	h.rec("OpPush "+p, res, fmt.Sprintf("PushSignature(%q, %d bytes sha256:%s.., subject %s, %d annotations) -> class %d %v", mt, len(blob), hex.EncodeToString(sha256sum(blob))[:8], short(subj), len(an), cls, errStr(err)))
 	h.addQuery(subj)
 }
 
@@ -424,9 +494,7 @@ func (h *H) raw(d ocispec.Descriptor, b []byte, tag string) int {
 	h.guard("oci.Store.Push", func() { err = h.store.Push(h.ctx, d, bytes.NewReader(b)) })
 	cls := pushClass(err)
 	// the content is identified by its real digest; a descriptor with another digest is not generated
-	h.ops = append(h.ops, "OpRaw "+h.desc(d)+" "+h.content(b))
-	h.obs = append(h.obs, fmt.Sprintf("(RRaw %d)", cls))
-	h.human = append(h.human, fmt.Sprintf("raw push [%s] %s (%d bytes) -> class %d %v", tag, short(d), len(b), cls, errStr(err)))
+	h.rec("OpRaw "+h.desc(d)+" "+h.content(b), fmt.Sprintf("(RRaw %d)", cls), fmt.Sprintf("raw push [%s] %s (%d bytes) -> class %d %v", tag, short(d), len(b), cls, errStr(err)))
 	return cls
 }
 
@@ -445,6 +513,7 @@ func (h *H) list(q ocispec.Descriptor) []ocispec.Descriptor {
 	preQ := snap(q)
 	h.guard("ListSignatures", func() {
 		err = h.repo.ListSignatures(h.ctx, q, func(ms []ocispec.Descriptor) error {
+			yield(h.ctx)
 			for i := range ms {
 				m := ms[i]
 				m.Annotations = copyAnn(m.Annotations)
@@ -489,9 +558,7 @@ func (h *H) list(q ocispec.Descriptor) []ocispec.Descriptor {
 		delete(h.lastList, qkey(q))
 	}
 	h.nListed += len(got)
-	h.ops = append(h.ops, "OpList "+h.desc(q))
-	h.obs = append(h.obs, fmt.Sprintf("(RList %d %s %s)", cls, CList(items), h.logTerm()))
-	h.human = append(h.human, fmt.Sprintf("ListSignatures(%s) -> class %d, %d manifests, %d fetches %v", short(q), cls, len(got), len(h.flog), errStr(err)))
+	h.rec("OpList "+h.desc(q), fmt.Sprintf("(RList %d %s %s)", cls, CList(items), h.logTerm()), fmt.Sprintf("ListSignatures(%s) -> class %d, %d manifests, %d fetches %v", short(q), cls, len(got), len(h.flog), errStr(err)))
 	return got
 }
 
@@ -502,6 +569,15 @@ func (h *H) fetch(d ocispec.Descriptor) {
 	var err error = errors.New("panicked")
 	preD := snap(d)
 	h.guard("FetchSignatureBlob", func() { blob, bd, err = h.repo.FetchSignatureBlob(h.ctx, d) })
+	if h.conc { // the window between the return of the call and the use of the bytes
+		for k := 0; k < 3; k++ {
+			runtime.Gosched()
+		}
+	}
+	h.lastFetch.cls, h.lastFetch.dg, h.lastFetch.n, h.lastFetch.bd = 0, digest.FromBytes(blob), len(blob), bd
+	if err != nil {
+		h.lastFetch.cls = 9
+	}
 	h.frame("the descriptor handed to FetchSignatureBlob", preD, snap(d))
 	defer func() { // the caller scribbles over the returned bytes and descriptor: later fetches must not show it
 		for i := range blob {
@@ -537,9 +613,7 @@ func (h *H) fetch(d ocispec.Descriptor) {
 	} else {
 		res = fmt.Sprintf("(RFetch %d 0 d0 %s)", cls, h.logTerm())
 	}
-	h.ops = append(h.ops, "OpFetch "+h.desc(d))
-	h.obs = append(h.obs, res)
-	h.human = append(h.human, fmt.Sprintf("FetchSignatureBlob(%s) -> class %d, %d bytes, blob %s, %d fetches %v", short(d), cls, len(blob), short(bd), len(h.flog), errStr(err)))
+	h.rec("OpFetch "+h.desc(d), res, fmt.Sprintf("FetchSignatureBlob(%s) -> class %d, %d bytes, blob %s, %d fetches %v", short(d), cls, len(blob), short(bd), len(h.flog), errStr(err)))
 }
 
 // reopenCheck re-opens the layout with registry.NewOCIRepository and compares
